@@ -40,6 +40,44 @@ def saved_settings_only(case):
     return True
 
 
+_SCHEMA = {}
+
+
+def schema_keys():
+    if not _SCHEMA:
+        from .. import schema
+        for c in schema.extract():
+            _SCHEMA[c["name"]] = [k for (k, _, _) in c["exports"]]
+    return _SCHEMA
+
+
+def doc_nodes(doc):
+    """every dictionary with a "type" entry in a saved document"""
+    if isinstance(doc, dict):
+        if "type" in doc:
+            yield doc
+        for v in doc.values():
+            yield from doc_nodes(v)
+    elif isinstance(doc, list):
+        for v in doc:
+            yield from doc_nodes(v)
+
+
+def schema_disagreements(doc):
+    """the keys the translator extracted (coq/Gen/Schema.v) are the keys the running code writes, in order"""
+    sk = schema_keys()
+    bad = []
+    for node in doc_nodes(doc):
+        t = node["type"]
+        keys = [k for k in node if k != "type"]
+        if t not in sk:
+            bad.append("saved node of a class unknown to the translator: %s" % t)
+        elif keys != sk[t]:
+            bad.append("keys written for %s differ from Gen/Schema.v: code %s / schema %s" % (
+                t, [k for k in keys if k not in sk[t]], [k for k in sk[t] if k not in keys]))
+    return bad[:3]
+
+
 def eval_case(case):
     from .. import sim
     S = O.Static(case)
@@ -78,7 +116,8 @@ def eval_case(case):
                 dd = O.dump_diff(t1[-1]["dump"], t2[-1]["dump"])
                 if dd:
                     out.append(O.V("(c) the restored project re-simulates to a different result", "C16/resim", {"diff": dd[:3], "stage": stage}))
-    return {"violations": out, "sig": simcheck.behaviour_sig(S, trace) + (stage, any(t.get("sub") for t in case["tasks"])),
+    dis = schema_disagreements(jrec["doc1"]) if jrec["exc"] is None else []
+    return {"violations": out, "disagreements": dis, "sig": simcheck.behaviour_sig(S, trace) + (stage, any(t.get("sub") for t in case["tasks"])),
             "hist": dict(simcheck.base_hist(S, trace), **{"stage_" + stage: 1}), "nontrivial": True,
             "summary": {"stage": stage, "exc": jrec["exc"]}}
 
